@@ -52,6 +52,9 @@ func shiftOracle(curr, next string) (shift, care bool, why string) {
 			if curr == next && (curr == "TAnd" || curr == "TOr") {
 				return false, true, "S6: binary operators are left-associative (ties reduce)"
 			}
+			if curr == next && (curr == "TTilde" || curr == "TCarrot") {
+				return false, true, "S6: a postfix operator applies to the operand completed before it, so a repeated ~ or ^ reduces the first one (a^2^3 is BOOST(BOOST(a,2),3))"
+			}
 			return false, false, ""
 		}
 		return rn < rc, true, "S6: shift iff the next operator binds strictly tighter (OR < AND < NOT < ^ < ~ < - < + < : < <,> < =)"
